@@ -829,6 +829,9 @@ def run(ctx):
     cardenc_contract(ctx)
     cases, lats, rng = build_cases(ctx.tier, ctx.seed)
     ctx.xcheck, ctx.xcheck_cap = [], (18 if ctx.tier == "quick" else 90)
+    import glob
+    corpus = [json.load(open(q))["case"] for q in sorted(glob.glob(os.path.join(VERIF, "corpus", "C04", "*.json")))]
+    evaluate(ctx, corpus, "corpus")     # minimised earlier failures first
     evaluate(ctx, cases, "K")
     evaluate(ctx, fill_lattice_ops(lats, rng), "K(lattices)")
     coq_crosscheck(ctx, ctx.xcheck)
